@@ -75,6 +75,41 @@ unsigned int LocID::referenceCount() const {
     res.check("LocID:referenceCount: Coud not get object info");
     return oInfo.rc;
 }
+
+
+bool LocID::isLinkedInFile() const {
+    H5O_info_t own;
+    HErr res = H5Oget_info(hid, &own);
+    res.check("LocID::isLinkedInFile: Could not get object info");
+    if (own.rc == 0) {
+        return false;
+    }
+    std::string path = name();
+    if (path.empty()) {
+        return false;
+    }
+    H5Object fid(H5Iget_file_id(hid));
+    // fast path: the remembered name still leads to this very object
+    {
+        H5E_BEGIN_TRY {
+            H5O_info_t there;
+            if (H5Oexists_by_name(fid.h5id(), path.c_str(), H5P_DEFAULT) > 0 &&
+                H5Oget_info_by_name(fid.h5id(), path.c_str(), &there, H5P_DEFAULT) >= 0 &&
+                there.fileno == own.fileno && there.addr == own.addr) {
+                return true;
+            }
+        } H5E_END_TRY;
+    }
+    // the remembered name is stale: a handle opened by address has no name of its own, HDF5 searches the file for one
+    hid_t fresh = H5Oopen_by_addr(fid.h5id(), own.addr);
+    if (fresh < 0) {
+        return false;
+    }
+    ssize_t len = H5Iget_name(fresh, nullptr, 0);
+    H5Oclose(fresh);
+    return len > 0;
+}
+
 } // nix::hdf5
 
 } // nix::
